@@ -113,6 +113,10 @@ def showInfo : Option RI → String
       toString i.remote.val ++ " " ++ (match i.asn with | none => "-" | some a => toString a) ++ " " ++ showB i.ecs ++ " " ++
       showKind i.dev
 
+/-- Texts that may contain blanks travel as dot-separated decimal code points (`-`: empty). -/
+def unpts (s : String) : List Char := if s == "-" then [] else (s.splitOn ".").map (fun x => Char.ofNat (nat! x))
+def pts (l : List Char) : String := if l.isEmpty then "-" else ".".intercalate (l.map (fun c => toString c.toNat))
+
 def step (s : S) : List String → S × String
   | ["reset"] => ({}, "ok")
   | ["gnet", is4, val, bits] =>
@@ -167,6 +171,12 @@ def step (s : S) : List String → S × String
     let c := accessFromBackend (s.wireOf (nat! k))
     let c := if stage == "c" then confOfCache (cacheOfConf c) else c
     (s, showB (confBlocked c qname (nat! qt) { addr := { is4 := fam4 is4, val := nat! val }, zoned := famZoned is4 } (parseASN asn)))
+  | ["lrule", t] => (s, pts (lowerRuleL (unpts t)))
+  | ["rxblk", t, h] => (s, showB (rxRuleBlocks (unpts t) (unpts h)))
+  | ["ynet", is4, val, bits] =>
+    match (⟨fam4 is4, nat! val, if bits == "-" then none else some (nat! bits)⟩ : YamlNet).toPrefix with
+    | some p => ({ s with gnets := s.gnets ++ [p] }, "ok")
+    | none => (s, "rejected")
   | ["norm", x] => (s, "[" ++ normDomain x ++ "] [" ++ normQueryDomain x ++ "]")
   | _ => (s, "bad-op")
 
